@@ -46,7 +46,9 @@ def effective_offset(tm):
 
 def install(ctx, repo, probes):
     D, TZM = repo.data, repo.timezone
-    epoch = R.unix_epoch_rd(MODE) * 86400
+    def now():
+        m = R.canon(repo.CALENDAR.mode)
+        return m, R.unix_epoch_rd(m) * 86400
 
     def post_local(snap, args, kwargs, res, exc):
         ctx.ev("local_zone.post")
@@ -93,6 +95,7 @@ def install(ctx, repo, probes):
             ctx.violation("from_epoch.raised", "from epoch(%r, utc=%r) raised "
                           "%r" % (n, utc, exc), n=n)
             return
+        MODE, epoch = now()
         want = epoch + F(n)
         got = R.tp_instant(MODE, p)
         exact = F(n).denominator == 1
@@ -124,6 +127,7 @@ def install(ctx, repo, probes):
             res = orig_prop.fget(self)
         except Exception as e:
             exc = e
+        MODE, epoch = now()
         if not ctx.in_oracle and not self._truncated and \
                 R.tp_valid(MODE, self):
             ctx.in_oracle += 1
@@ -161,6 +165,8 @@ def install(ctx, repo, probes):
             raise exc
         return res
     probes.set(TP, "seconds_since_unix_epoch", property(monitored))
+    for m in R.MODES:
+        ctx.target("mode/" + m)
     ctx.target("local/neg", "local/pos", "local/zero", "local/neg/zero-hour",
                "local/pos/zero-hour", "format/normal", "format/reduced",
                "format/extended", "from_epoch/utc/neg",
@@ -180,7 +186,15 @@ def make_mock(std, alt, daylight, isdst):
 
 
 def run_case(ctx, repo, case):
+    MODE = case.get("mode", "gregorian")
     repo.set_mode(MODE)
+    try:
+        _run_case(ctx, repo, case, MODE)
+    finally:
+        repo.set_mode("gregorian")
+
+
+def _run_case(ctx, repo, case, MODE):
     op = case["op"]
     TZM = repo.timezone
     if op == "zone":
@@ -334,7 +348,9 @@ def workload(ctx, repo):
             val = rng.randint(0, 4 * 10**9) + rng.choice(
                 (0.5, 0.25, 0.999999, 0.000001, rng.randrange(10**6) / 10**6))
         case = {"op": "from", "n": val, "utc": i % 2 == 0,
-                "std": 0 if i % 2 == 0 else 60 * rng.randint(-1440, 1440)}
+                "std": 0 if i % 2 == 0 else 60 * rng.randint(-1440, 1440),
+                "mode": R.MODES[i % 4] if i % 3 == 0 else "gregorian"}
+        ctx.cls("mode/" + case["mode"])
         ctx.case = case
         if i % 499 == 0:
             ctx.sample(case)
@@ -344,8 +360,9 @@ def workload(ctx, repo):
     for i in range(n):
         y = rng.choice((1969, 1970, 1971, 2038, 1, 9999, 0, -1, 2000,
                         gen.rand_year(rng, -3000, 12000)))
-        kw = gen.rand_tp(rng, MODE, year=y, integral=(i % 5 != 0))
-        case = {"op": "to", "p": kw}
+        mode = R.MODES[i % 4] if i % 3 == 0 else "gregorian"
+        kw = gen.rand_tp(rng, mode, year=y, integral=(i % 5 != 0))
+        case = {"op": "to", "p": kw, "mode": mode}
         ctx.case = case
         if i % 999 == 0:
             ctx.sample(case)
